@@ -39,7 +39,9 @@ class DDSPathUtils(object):
                     f"such a path cannot be told apart from the path it would resolve to",
                     DDSErrorCode.PATH_NOT_ABSOLUTE,
                 )
-            return DDSPath(p)
+            # Empty segments do not count ('/a//b', '/a/b/' and '//a/b' are the path '/a/b'): the stores already
+            # map them to one location, and the analysis must see one path too.
+            return DDSPath("/" + "/".join(seg for seg in p.split("/") if seg))
         if isinstance(p, pathlib.Path):
             if not p.is_absolute():
                 raise DDSException(
